@@ -26,6 +26,22 @@ from .tracecheck import validate
 SRC_FLAVOURS = ("cls", "agen", "clsnoclose", "list", "seq", "iter")
 
 
+def stratified(rnd, cases, cap):
+    """At most `cap` cases, shared out evenly over the tools (a tool with few cases keeps them all)."""
+    if len(cases) <= cap:
+        return list(cases)
+    by = {}
+    for c in cases:
+        by.setdefault(c["cfg"]["tool"], []).append(c)
+    out, left, groups = [], cap, sorted(by.items(), key=lambda kv: len(kv[1]))
+    for j, (_, cs) in enumerate(groups):
+        share = left // (len(groups) - j)
+        take = cs if len(cs) <= share else rnd.sample(cs, share)
+        out += take
+        left -= len(take)
+    return out
+
+
 def _pool():
     return mp.Pool(min(16, os.cpu_count() or 4))
 
@@ -209,7 +225,7 @@ def check_c03(prop, tier, seed):
     rnd = random.Random(seed)
     cap_full = 2500 if tier == "quick" else 40000
     cap_fault = 1500 if tier == "quick" else 20000
-    chosen = (full if len(full) <= cap_full else rnd.sample(full, cap_full)) + (faults if len(faults) <= cap_fault else rnd.sample(faults, cap_fault))
+    chosen = stratified(rnd, full, cap_full) + stratified(rnd, faults, cap_fault)
     runs = 0
     with _pool() as pool:
         for out, n in pool.imap_unordered(c03_case, [(c, seed) for c in chosen], chunksize=max(1, len(chosen) // 256)):
@@ -381,7 +397,7 @@ def check_c17(prop, tier, seed):
     cases, stats = generate(tier, ITER_TOOLS + AGG_TOOLS + ["any_iter", "await_each", "apply", "sync", "anext"], faults=False, prefixes=True)
     rnd = random.Random(seed)
     cap = 1500 if tier == "quick" else 60000
-    chosen = cases if len(cases) <= cap else rnd.sample(cases, cap)
+    chosen = stratified(rnd, cases, cap)
     runs = 0
     with _pool() as pool:
         for out, n in pool.imap_unordered(c17_case, [(c, 2) for c in chosen], chunksize=max(1, len(chosen) // 256)):
@@ -643,7 +659,7 @@ def check_c18(prop, tier, seed):
     cases = [c for c in cases if c["nnext"] >= 1 and any(e["ev"] in ("pull", "call") for e in c["log"])]
     rnd = random.Random(seed)
     cap = 2500 if tier == "quick" else 40000
-    chosen = cases if len(cases) <= cap else rnd.sample(cases, cap)
+    chosen = stratified(rnd, cases, cap)
     runs = 0
     with _pool() as pool:
         for out, n in pool.imap_unordered(c18_case, chosen, chunksize=max(1, len(chosen) // 256)):
